@@ -287,6 +287,22 @@ func (c *C08Case) addFault(r *gen.Rand, names []string) {
 			c.Faults = append(c.Faults, "graph:parent-diamond")
 		}
 	case 4: // symlink trouble
+		if len(names) >= 2 && r.Chance(0.4) {
+			// a layer replaced by a link to the layer above it: the link
+			// inherits from its target's name, which makes it its own ancestor
+			top := filepath.Join(c08Dir, names[len(names)-1])
+			par := filepath.Join(c08Dir, names[len(names)-2])
+			for k, f := range w.Files {
+				if f.Path == par {
+					w.Files = append(w.Files[:k], w.Files[k+1:]...)
+					break
+				}
+			}
+			tgt := filepath.Base(top)
+			w.Links = append(w.Links, procsim.Link{Path: par, Target: tgt})
+			c.Faults = append(c.Faults, "graph:symlink-own-ancestor")
+			return
+		}
 		switch r.Intn(3) {
 		case 0:
 			w.Links = append(w.Links, procsim.Link{Path: filepath.Join(c08Dir, "loop.yaml"), Target: "loop.yaml"})
